@@ -612,9 +612,13 @@ class SymInt:
         return _divmod(o, self)
 
     def __truediv__(self, o):
-        raise Unsupported('true division of a symbolic int (float result)')
+        from . import symfloat                 # exact only for a power-of-two divisor
+        if is_sym(o) or isinstance(o, symfloat.SymFloat):
+            raise Unsupported('true division by a symbolic value')
+        return symfloat.int_truediv(self, o)
 
-    __rtruediv__ = __truediv__
+    def __rtruediv__(self, o):
+        raise Unsupported('true division by a symbolic int (float result)')
 
     def __pow__(self, o, m=None):
         if m is not None or is_sym(o) or not isinstance(o, int) or o < 0:
